@@ -151,7 +151,8 @@ class Check:
         for fl in self.floors:
             print(f"   floor {fl['rule']} {fl['what']}: {fl['count']} (>= {fl['floor']}) {'ok' if fl['ok'] else 'NOT MET'}")
         for f, ent in known_hits:
-            print(f"KNOWN-FINDING: property={self.prop} {f.rule} {f.loc} {ent.get('what', f.msg)}")
+            ident = f.key if len(f.key) <= 160 else f.key[:157] + "..."
+            print(f"KNOWN-FINDING: property={self.prop} {f.rule} {f.loc} [{ident}] {ent.get('what', f.msg)}")
         replay_paths = []
         for f in new_viol:
             rp = self._write_replay(f)
